@@ -396,6 +396,20 @@ def iterSim (u : List Nat) : Utf16.Iter → List Char → List String
     let (r, it') := if o == 'f' then Utf16.Iter.next u it else Utf16.Iter.nextBack u it
     (match r with | some c => hexStr c | none => "-") :: iterSim u it' os
 
+/-- all pairs `(a, b)` of a sorted list with `a` not after `b` in the list (including `a = b`) -/
+def pairsLe : List Nat → List (Nat × Nat)
+  | [] => []
+  | a :: rest => ((a :: rest).map (fun b => (a, b))) ++ pairsLe rest
+
+/-- the `SUB=` field as the Model computes it: `Text.subrange` over every pair of character boundaries -/
+def subStr (t : Text) : String :=
+  let bounds := t.segs.map (·.start) ++ [t.len]
+  if bounds.length ≤ 9 then
+    String.intercalate "," ((pairsLe bounds).map (fun (a, b) =>
+      let st := t.subrange a b
+      s!"{a}-{b}:{st.len}:{String.intercalate "." (st.segs.map (fun sg => hexStr sg.cp))}"))
+  else ""
+
 def checkU16 (f : Fields) (ans : Fields) (panicked : Bool) : Verdict :=
   let u := hexList (getF f "U")
   let ops := if getF f "OPS" == "-" then [] else (getF f "OPS").toList
@@ -430,7 +444,56 @@ def checkU16 (f : Fields) (ans : Fields) (panicked : Bool) : Verdict :=
     let v := v.add (getF ans "CA" == sca) "S:C18"
     let v := v.add (getF ans "LEN" == toString u.length && (lo.map (·.2)).foldl (· + ·) 0 == u.length) "S:C18"
     let sit := String.intercalate "," (dequeSim (lo.map (·.1)) ops)
-    v.add (getF ans "IT" == sit) "S:C18"
+    let v := v.add (getF ans "IT" == sit) "S:C18"
+    -- subrange over every pair of character boundaries (reported only for texts of at most 8 characters)
+    let t := Utf16.toText u
+    let v := v.add (getF ans "SUB" == subStr t) "M:iter"
+    -- Spec: the characters of the lossy decoding that start in [a, b)
+    let bounds := starts ++ [u.length]
+    let ssub := if bounds.length ≤ 9 then
+        String.intercalate "," ((pairsLe bounds).map (fun (a, b) =>
+          let cs := ((starts.zip lo).filter (fun (st, _) => a ≤ st && st < b)).map (fun (_, x) => hexStr x.1)
+          s!"{a}-{b}:{b - a}:{String.intercalate "." cs}"))
+      else ""
+    v.add (getF ans "SUB" == ssub) "S:C18"
+
+/-- `<str as TextSource>`: char_at at every offset, the three iterators, char_len, len, subrange -/
+def checkS8 (f : Fields) (ans : Fields) (panicked : Bool) : Verdict :=
+  let cs := hexList (getF f "T")
+  let v : Verdict := { stats := s!"n={cs.length}" }
+  if panicked then v.add false "S:C07"
+  else
+    let t := Text.ofScalars cs
+    let ca := String.intercalate "," ((List.range (t.len + 2)).map (fun i =>
+      match t.charAt i with
+      | some sg => s!"{hexStr sg.cp}:{sg.len}"
+      | none => "-"))
+    let ci := String.intercalate "," (t.segs.map (fun sg => s!"{sg.start}:{hexStr sg.cp}"))
+    let il := String.intercalate "," (t.segs.map (fun sg => s!"{sg.start}:{sg.len}"))
+    let ch := String.intercalate "," (t.segs.map (fun sg => hexStr sg.cp))
+    let cl := String.intercalate "," (t.segs.map (fun sg => toString (Enc.utf8.charLen sg.cp)))
+    let v := v.add (getF ans "CA" == ca) "M:charat"
+    let v := v.add (getF ans "CI" == ci && getF ans "IL" == il && getF ans "CH" == ch && getF ans "CL" == cl
+                    && getF ans "LEN" == toString t.len && getF ans "SUB" == subStr t) "M:iter"
+    -- Spec: UTF-8 lengths by scalar value, offsets by summation (independent of `Text.layout`)
+    let w (c : Nat) : Nat := if c < 0x80 then 1 else if c < 0x800 then 2 else if c < 0x10000 then 3 else 4
+    let starts := (cs.foldl (fun (acc : List Nat × Nat) c => (acc.1 ++ [acc.2], acc.2 + w c)) ([], 0)).1
+    let total := (cs.map w).foldl (· + ·) 0
+    let sil := String.intercalate "," ((starts.zip cs).map (fun (st, c) => s!"{st}:{w c}"))
+    let sci := String.intercalate "," ((starts.zip cs).map (fun (st, c) => s!"{st}:{hexStr c}"))
+    let sca := String.intercalate "," ((List.range (total + 2)).map (fun i =>
+      match (starts.zip cs).find? (fun (st, _) => st == i) with
+      | some (_, c) => s!"{hexStr c}:{w c}"
+      | none => "-"))
+    let v := v.add (getF ans "IL" == sil && getF ans "CI" == sci && getF ans "CA" == sca
+                    && getF ans "LEN" == toString total) "S:C18"
+    let bounds := starts ++ [total]
+    let ssub := if bounds.length ≤ 9 then
+        String.intercalate "," ((pairsLe bounds).map (fun (a, b) =>
+          let xs := ((starts.zip cs).filter (fun (st, _) => a ≤ st && st < b)).map (fun (_, c) => hexStr c)
+          s!"{a}-{b}:{b - a}:{String.intercalate "." xs}"))
+      else ""
+    v.add (getF ans "SUB" == ssub) "S:C18"
 
 def resStr (o : Option Nat) (orig : Nat) : String :=
   match o with
@@ -481,7 +544,8 @@ def checkU8 (f : Fields) (ans : Fields) : Verdict :=
   let v := v.add (getF ans "NEW" == optS (Level.new n) && getF ans "NEWX" == optS (Level.newExplicit n)) "M:level"
   let v := v.add (getF ans "NEW" == (if n ≤ 126 then toString n else "E")) "S:C19"
   let v := v.add (getF ans "NEWX" == (if n ≤ 125 then toString n else "E")) "S:C19"
-  v.add (getF ans "FROM" == (if n ≤ 126 then toString n else "PANIC")) "S:C19"
+  let v := v.add (getF ans "FROM" == (if n ≤ 126 then toString n else "PANIC")) "S:C19"
+  v.add (getF ans "VEC" == (if n ≤ 126 then s!"0,{n},1" else "PANIC")) "S:C19"
 
 def checkHasRtl (f : Fields) (ans : Fields) : Verdict :=
   let lv := natList (getF f "LV")
@@ -658,6 +722,7 @@ def processLine (line : String) : Option String :=
         | "basedir" => checkBaseDir f ans panicked
         | "stage" => checkStage f ans panicked a
         | "u16" => checkU16 f ans panicked
+        | "s8" => checkS8 f ans panicked
         | "lvl" => checkLvl f ans panicked
         | "u8" => checkU8 f ans
         | "hasrtl" => checkHasRtl f ans
